@@ -67,7 +67,7 @@ def gen(ctx, rng):
         else:
             a["srange"] = [[float(v) for v in np.arange(-2, 2.2, 0.4)], [float(v) for v in np.arange(-1.875, 2.0, 0.35)], [float(v) for v in np.linspace(-1, 3, 12)]][k % 3]
             if k % 3 == 1:
-                a["p"] = 0.8
+                a["p"] = [0.5, 0.8][(k // 3) % 2]            # 0.5 is an envelope like any other (weights 0.5, not the symmetric smoother)
         pcs = []
         for yy in range(cube.shape[0]):
             for xx in range(cube.shape[1]):
